@@ -335,44 +335,146 @@ def f1_f4(ctx, res: Result, ci: ClassInfo) -> CacheModel:
             res.bad("F6-snapshot-is-commit-point", inst, fi.site(bad[0]), fi.qualname,
                     f"{bad[1]} can happen after the configuration snapshot was already recorded: if the recomputation fails, the next read sees 'not stale' and returns the previous configuration's distribution",
                     construct=src(bad[0])[:160])
-    # F5: the predicate compares every snapshot entry
+    # F5: the predicate compares every snapshot entry, and every kind of difference makes it answer "stale".
+    # Cases for one (current, stored) pair: A arrays of different shape, B arrays of equal shape and different content,
+    # C non-array values that differ.  The comparison kernel (loop body, or the element of an any(...)) is evaluated
+    # three-valued per case; each case must end in "stale" on every path.
     p = model.pred
-    from ..inline import inlined as _inl
-    pnode = _inl(p.node)
-    loops = [n for n in walk_no_nested(pnode) if isinstance(n, ast.For)]
-    good = False
-    matched = False
-    why = "no loop over zip(snapshot(), stored snapshot)"
-    for lp in loops:
-        it = lp.iter
-        if isinstance(it, ast.Call) and isinstance(it.func, ast.Name) and it.func.id == "zip" and len(it.args) >= 2:
-            a_call = any(_self_call(a) == model.snapfn.name for a in it.args)
-            a_fld = any(_self_attr(a, cn) == model.snapfield for a in it.args)
-            tnames = {x.id for x in ast.walk(lp.target) if isinstance(x, ast.Name)}
-            if a_call and a_fld and len(tnames) >= 2:
-                matched = True
-                has_true = False
-                for n in ast.walk(lp):
-                    if isinstance(n, ast.If) and any(isinstance(b, ast.Return) and isinstance(b.value, ast.Constant) and b.value.value is True for b in n.body):
-                        used = {x.id for x in ast.walk(n.test) if isinstance(x, ast.Name)}
-                        if tnames <= used or len(tnames & used) >= 2:
-                            has_true = True
-                bad_ret = any(isinstance(n, ast.Return) and isinstance(n.value, ast.Constant) and n.value.value is False for n in ast.walk(lp))
-                has_break = any(isinstance(n, (ast.Break,)) for n in ast.walk(lp))
-                strict = any(k.arg == "strict" and isinstance(k.value, ast.Constant) and k.value.value is True for k in it.keywords)
-                if has_true and not bad_ret and not has_break:
-                    good = True
+    from ..inline import with_helpers as _wh
+    ph = _wh(ctx, p, exclude=(model.snapfn.name,), only_private=True)
+    pnode = ph.node
+
+    def _pair_iter(it):
+        return (isinstance(it, ast.Call) and isinstance(it.func, ast.Name) and it.func.id == "zip" and len(it.args) >= 2
+                and any(_self_call(a_) == model.snapfn.name for a_ in it.args) and any(_self_attr(a_, cn) == model.snapfield for a_ in it.args))
+
+    def _truth(t, case, names):
+        if isinstance(t, ast.Constant):
+            return bool(t.value)
+        if isinstance(t, ast.UnaryOp) and isinstance(t.op, ast.Not):
+            v = _truth(t.operand, case, names)
+            return None if v is None else (not v)
+        if isinstance(t, ast.BoolOp):
+            vs = [_truth(x, case, names) for x in t.values]
+            if isinstance(t.op, ast.And):
+                return False if any(v is False for v in vs) else (True if all(v is True for v in vs) else None)
+            return True if any(v is True for v in vs) else (False if all(v is False for v in vs) else None)
+        if isinstance(t, ast.IfExp):
+            c = _truth(t.test, case, names)
+            if c is None:
+                x, y = _truth(t.body, case, names), _truth(t.orelse, case, names)
+                return x if x == y else None
+            return _truth(t.body if c else t.orelse, case, names)
+        if isinstance(t, ast.Call):
+            f = src(t.func)
+            if f == "bool" and len(t.args) == 1:
+                return _truth(t.args[0], case, names)
+            if f == "isinstance" and len(t.args) == 2 and isinstance(t.args[0], ast.Name) and t.args[0].id in names and "ndarray" in src(t.args[1]):
+                return case in ("A", "B")
+            if f.split(".")[-1] in ("array_equal", "array_equiv", "allclose") and len(t.args) >= 2:
+                return {"A": False if f.split(".")[-1] == "array_equal" else None, "B": False}.get(case)
+            if isinstance(t.func, ast.Attribute) and t.func.attr in ("all", "any") and not t.args:
+                inner = t.func.value
+                if isinstance(inner, ast.Compare) and len(inner.ops) == 1 and {src(inner.left), src(inner.comparators[0])} <= names:
+                    eq = isinstance(inner.ops[0], ast.Eq)
+                    if case == "B":
+                        # equal shape, different content: (a == b).all() is False, (a != b).any() is True
+                        return (not eq) if t.func.attr == "any" else (False if eq else None)
+                    return None
+        if isinstance(t, ast.Compare) and len(t.ops) == 1:
+            l_, r_ = t.left, t.comparators[0]
+            if isinstance(l_, ast.Attribute) and isinstance(r_, ast.Attribute) and l_.attr == r_.attr == "shape" and {src(l_.value), src(r_.value)} <= names:
+                ne = isinstance(t.ops[0], ast.NotEq)
+                if case == "A":
+                    return ne
+                if case == "B":
+                    return not ne
+                return None
+            if isinstance(l_, ast.Name) and isinstance(r_, ast.Name) and {l_.id, r_.id} <= names:
+                if case == "C":
+                    return isinstance(t.ops[0], ast.NotEq) if isinstance(t.ops[0], (ast.Eq, ast.NotEq)) else None
+                return None
+        return None
+
+    def _run(body, case, names):
+        """outcomes of a statement list: 'stale', 'fresh' (return False), 'next' (pair passes), 'unknown'"""
+        out, live = set(), True
+        for st in body:
+            if isinstance(st, ast.If):
+                v = _truth(st.test, case, names)
+                ob = _run(st.body, case, names) if v is not False else set()
+                oe = _run(st.orelse, case, names) if v is not True else set()
+                if v is None and not any(isinstance(x, (ast.Return, ast.Continue, ast.Break)) for b_ in st.body + st.orelse for x in ast.walk(b_)):
+                    continue
+                res_ = ob | oe
+                if v is not False and not st.body:
+                    res_.add("next")
+                if v is not True and not st.orelse:
+                    res_.add("next")
+                out |= {r for r in res_ if r != "next"}
+                if "next" not in res_:
+                    live = False
+                    break
+            elif isinstance(st, ast.Return):
+                if isinstance(st.value, ast.Constant) and isinstance(st.value.value, bool):
+                    out.add("stale" if st.value.value else "fresh")
                 else:
-                    why = "loop over the snapshots does not return True on every difference (early `return False`, `break`, or a comparison not involving both entries)"
-    first = p.node.body[0] if p.node.body else None
+                    v = _truth(st.value, case, names) if st.value is not None else None
+                    out.add("unknown" if v is None else ("stale" if v else "fresh"))
+                live = False
+                break
+            elif isinstance(st, ast.Continue):
+                break
+            elif isinstance(st, ast.Break):
+                out.add("unknown")
+                live = False
+                break
+        if live:
+            out.add("next")
+        return out
+
+    kernel = None  # ("stmts", body, names, node) | ("expr", elt, names, node)
+    for n in ast.walk(pnode):
+        if isinstance(n, ast.For) and _pair_iter(n.iter):
+            names = {x.id for x in ast.walk(n.target) if isinstance(x, ast.Name)}
+            if len(names) >= 2:
+                kernel = ("stmts", n.body, names, n)
+        elif isinstance(n, ast.Call) and isinstance(n.func, ast.Name) and n.func.id == "any" and len(n.args) == 1 and isinstance(n.args[0], (ast.GeneratorExp, ast.ListComp)) and len(n.args[0].generators) == 1 and _pair_iter(n.args[0].generators[0].iter) and not n.args[0].generators[0].ifs:
+            g = n.args[0].generators[0]
+            names = {x.id for x in ast.walk(g.target) if isinstance(x, ast.Name)}
+            if len(names) >= 2:
+                kernel = ("expr", n.args[0].elt, names, n)
     hasattr_guard = any(isinstance(n, ast.Call) and isinstance(n.func, ast.Name) and n.func.id == "hasattr" for n in walk_no_nested(p.node))
     refs_call = any(_self_call(n) == model.snapfn.name for n in ast.walk(pnode) if isinstance(n, ast.Call))
     refs_fld = any(_self_attr(n, cn) == model.snapfield for n in ast.walk(pnode) if isinstance(n, ast.Attribute))
-    if not matched and refs_call and refs_fld:
-        res.frozen(False, "F5-predicate-compares-all", p.qualname, p.site(), p.qualname, "", "comparison of the current with the stored snapshot is not in the recognised loop form", construct=p.qualname)
+    if kernel is None:
+        if refs_call and refs_fld:
+            res.frozen(False, "F5-predicate-compares-all", p.qualname, p.site(), p.qualname, "", "comparison of the current with the stored snapshot is not in a recognised pairwise form", construct=p.qualname)
+        else:
+            res.bad("F5-predicate-compares-all", p.qualname, p.site(), p.qualname, "the staleness predicate does not compare the current configuration snapshot with the stored one", construct=p.qualname)
     else:
-        res.add(good, "F5-predicate-compares-all", p.qualname, p.site(), p.qualname,
-                "every pair (current, stored) snapshot entry is compared; any difference returns True", why if matched else "the staleness predicate does not compare the current configuration snapshot with the stored one", construct=p.qualname)
+        kind, body, names, node = kernel
+        labels = {"A": "arrays of different shape (e.g. U_full after a loss element was added)", "B": "arrays of equal shape with different entries", "C": "non-array values that differ"}
+        wrong, unknown = [], []
+        for case in ("A", "B", "C"):
+            if kind == "stmts":
+                oc = _run(body, case, names)
+            else:
+                v = _truth(body, case, names)
+                oc = {"unknown"} if v is None else ({"stale"} if v else {"next"})
+            if oc == {"stale"}:
+                continue
+            if "unknown" in oc:
+                unknown.append(case)
+            else:
+                wrong.append((case, oc))
+        if wrong:
+            res.bad("F5-predicate-compares-all", p.qualname, ph.site(node), p.qualname,
+                    "; ".join(f"for {labels[c]} the predicate can answer 'not stale' ({sorted(oc)})" for c, oc in wrong) + ": the cached distribution of the previous configuration is returned", construct=src(node)[:160])
+        elif unknown:
+            res.frozen(False, "F5-predicate-compares-all", p.qualname, ph.site(node), p.qualname, "", f"outcome of the pairwise comparison not derived for case(s) {unknown}", construct=src(node)[:160])
+        else:
+            res.ok("F5-predicate-compares-all", p.qualname, ph.site(node), p.qualname, "every pair (current, stored) is compared; different shape, different entries and different values all answer 'stale'")
     res.add(hasattr_guard or True, "F5-predicate-compares-all", p.qualname + ":first-use", p.site(), p.qualname, "first-use guard present or cache initialised")
     return model
 
